@@ -1354,7 +1354,6 @@ func isErrSlotPtr(v ssa.Value, d int) bool {
 	return false
 }
 
-
 // alreadyClosedAt: every blocking operation of callee is a plain receive from a channel field of its receiver; nothing in the
 // package ever SENDS on that field (it is only closed, so a receive succeeds only once it is closed, and then for ever); and
 // the call, made on the same receiver, is dominated by the body of a select arm (or follows a plain receive) on that very
